@@ -15,8 +15,9 @@ from fmon.ref import columns as RC
 from workloads import designs as D
 
 PROP = "C04"
-DECIDING = ["design-built", "common-labels-match-columns", "group-labels-match-columns", "newdata-labels-match-columns"]
+DECIDING = ["design-built", "earlier-design-still-labelled", "common-labels-match-columns", "group-labels-match-columns", "newdata-labels-match-columns"]
 CTX = {}
+LAST = {}
 
 
 def spec(tier):
@@ -135,6 +136,7 @@ def judge(case, m):
             atoms[at.name] = at
     CTX.update(atoms=atoms, meta=meta)
     m.current_case = case
+    LAST.pop("built", None)
     try:
         try:
             dm = formulae.design_matrices(text, df, extra_namespace=D.namespace(meta))
@@ -144,6 +146,7 @@ def judge(case, m):
             m.note("design-raised:" + type(e).__name__)
             return
         m.ev("design-built")
+        LAST["built"] = (dm, atoms, meta, case, df)
         # new data: rows of the training frame (any subset / order / repetition)
         rng = np.random.default_rng(case["frame"]["seed"] + 1)
         idx = rng.integers(0, len(df), size=int(rng.integers(1, len(df) + 3)))
@@ -164,16 +167,52 @@ def judge(case, m):
         CTX.clear()
 
 
+def rejudge_earlier(prev, m):
+    """"In every design": an existing design must still satisfy the contract after other designs
+    (same formula text, other data) have been built."""
+    dm, atoms, meta, case, df = prev
+    CTX.update(atoms=atoms, meta=meta)
+    m.current_case = {**case, "rejudged_after_later_build": True}
+    try:
+        m.ev("earlier-design-still-labelled")
+        before = sum(m.nviol.values())
+        _judge_matrices(dm.common, None, dm.common.data, dm.common.data, meta, atoms, m, "re") if dm.common is not None else None
+        _judge_matrices(None, dm.group, dm.group.data, dm.group.data, meta, atoms, m, "re") if dm.group is not None else None
+        new = df.iloc[: max(1, len(df) // 2)]
+        for part in (dm.common, dm.group):
+            if part is not None:
+                try:
+                    part.evaluate_new_data(new)
+                except Exception as e:
+                    m.violation("earlier-design-still-labelled",
+                                f"evaluate_new_data of an earlier design raised {type(e).__name__}: {e} after a later build",
+                                key="earlier:raises")
+        if sum(m.nviol.values()) > before:
+            m.note("earlier-design-violations")
+    finally:
+        CTX.clear()
+
+
 def run_shard(i, n, tier, seed, m):
     rng = random.Random(seed * 1000003 + i * 101 + 4)
     ncases = (4000 if tier == "quick" else 60000) // n
+    prev_case = None
     for k in range(ncases):
         case = D.random_case(rng, profile="plain", hostile=(k % 3 == 0), group_p=0.5)
+        if k % 4 == 3 and prev_case is not None and LAST.get("built"):
+            # the same formula text on other data (other levels), then look at the earlier design again
+            case = {**prev_case, "frame": case["frame"]}
+            earlier = LAST["built"]
+        else:
+            earlier = None
+        prev_case = case
         nontrivial = any(len(t) > 1 for t in case["terms"]) or bool(case["group"]) or any(
             a in ("s", "h", "o", "cu", "co", "C(k)", "`c:1`", "C(s)", "T(h)") for t in case["terms"] for a in t)
         m.case({**case, "text": D.formula_text(case)}, canon=[D.formula_text(case), case["frame"]["seed"]],
                nontrivial=nontrivial)
         judge(case, m)
+        if earlier is not None:
+            rejudge_earlier(earlier, m)
 
 
 def replay(rec, m):
